@@ -17,7 +17,7 @@ type outcome struct {
 	Res    *tooldriver.Result `json:"res,omitempty"`
 }
 
-const caseTimeout = 20 * time.Second
+const caseTimeout = 5 * time.Second
 
 // runSession executes the cases in order in one fresh child process. After a
 // hang or crash the remaining cases run in another fresh child (they are
